@@ -235,6 +235,10 @@ def _impersonate_tcp(
     elif Quirk.URG in signature.quirks:
         flags |= TCPFlag.URG  # URG flag used
 
+    # ECN support is impersonated in the IP header. ECE/CWR/NS taken over from
+    # the base packet would always add the 'ecn' quirk.
+    flags &= ~(TCPFlag.ECE | TCPFlag.CWR | 0x100)
+
     if Quirk.PUSH in signature.quirks:
         flags |= TCPFlag.PSH  # PSH flag used
     else:
